@@ -620,6 +620,24 @@ def main_body(prog):
     return fir.find_unit(prog, fir.prog_main(prog))[4]
 
 
+def _check_pragma_runs(stmts):
+    """input domain of the models and generators: at most one `loki loop-<kind>` pragma of each kind in a run of pragmas
+    (two of them on one loop make get_pragma_parameters return lists, which the transformations do not accept); the generic
+    shrinker produces such runs by dropping the loop between two pragmas"""
+    run = []
+    for s in list(stmts) + [None]:
+        if s is not None and is_pragma(s):
+            run.append(str(s[2]))
+            continue
+        kinds = [t.split()[1] for t in run if t.startswith('loki loop-') and len(t.split()) > 1]
+        if len(kinds) != len(set(kinds)):
+            raise ValueError('two loki pragmas of the same kind in one run')
+        run = []
+        if s is not None:
+            for l in sub_lists(s):
+                _check_pragma_runs(l)
+
+
 def decode(req):
     kind = str(req[0])
     prog = req[1]
@@ -632,6 +650,8 @@ def decode(req):
             raise ValueError('malformed unit')
     if not any(str(u[1]) == str(prog[1]) for u in prog[2:]):
         raise ValueError('no main unit')
+    for u in prog[2:]:
+        _check_pragma_runs(u[4])
     return kind, prog, inputs, flag
 
 
@@ -645,11 +665,12 @@ def req_params(req):
 class C31(Prop):
     id = 'C31'
     title = 'Loop transformations preserve behaviour where they apply'
-    model_modules = ['LokiModel.C31.Model', 'LokiModel.C31.Enc', 'LokiModel.C31.Nest']
+    model_modules = ['LokiModel.C31.Model', 'LokiModel.C31.Enc', 'LokiModel.C31.Nest', 'LokiModel.C31.Perm']
     props_module = 'LokiModel.Props.C31'
     findings_module = 'LokiModel.Findings.C31'
     driver = 'Drivers/C31.lean'
-    theorems = ['unroll_sound', 'unroll_sound_rel', 'unroll_range_is_do_sequence', 'subst_stmts_sim']
+    theorems = ['unroll_sound', 'unroll_sound_rel', 'unroll_range_is_do_sequence', 'subst_stmts_sim',
+                'interchange_specs_perm', 'interchange_pairs_intact']
     design_ref = 'DESIGN.md 4.F C31'
     level = 'proof'
     level_text = ('Theorems (Lean kernel, all programs / states / fuel, no size bound): unroll_sound — for every DO loop with literal '
@@ -666,7 +687,9 @@ class C31(Prop):
                   'neighbour/counter-in-bounds branches, non-literal loops) is modelled and tied to the real code by correspondence '
                   'of the transformed programs; no theorem is stated about the composed traversal. Fusion, fission, interchange: '
                   'models of the simple classes (correspondence) + direct oracle on nests that are legal by construction; blocking '
-                  '(split_loop): direct oracle only. No theorem for fusion/fission/interchange/blocking.')
+                  '(split_loop): direct oracle only. interchange_specs_perm / interchange_pairs_intact: the model of do_loop_interchange '
+                  'gives the new nest a permutation of the old (variable, range) pairs for EVERY requested order (involution or not, '
+                  'any depth), so every variable keeps its own range; no execution-level theorem for fusion/fission/interchange/blocking.')
     level_note = ('Hand-written model; FIR semantics (Fir/Sem.lean) is the reference, tied to gfortran in the thorough tier. '
                   'CALL statements and loops inside ASSOCIATE blocks are covered by correspondence and oracle only. '
                   'The converse direction (unrolled code finishes => loop finishes) is not proved.')
@@ -674,7 +697,10 @@ class C31(Prop):
     rule = ('unroll: fir.gen_program biased to DO loops (steps 1, 2, -1, -3, literal and symbolic bounds, zero-trip loops, nested loops, '
             'EXIT/CYCLE, ASSOCIATE, calls, prints) with `loki loop-unroll[ depth(0..3)]` in front of 70% of the loops, 2-3 input sets; '
             'fusion / fission / interchange / block: loop nests of element-wise statements (legal by construction), groups, differing '
-            'loop variables and ranges, promoted scalars, steps and block sizes; non-trivial = the program has a loop the '
+            'loop variables and ranges, promoted scalars, steps and block sizes; interchange-n: perfect nests of depth 2-4 with an '
+            'explicit variable order (all permutations, 70% non-involutions for depth >= 3), pairwise different literal/symbolic '
+            'extents, lower bounds 1/2, arrays subscripted in a shuffled order; fusion-c: groups of 2-3 perfect nests with '
+            'collapse(2|3), identical ranges, variable names chosen independently per nest and level; non-trivial = the program has a loop the '
             'transformation may touch; distinct by request line')
     trusted_base = ['harness/fir.py (printer, exporter from Loki IR, reference interpreter)', 'gfortran 12.2 (thorough tier)']
     assumptions = ['integer overflow and floating-point rounding are outside the FIR semantics (generated programs stay exact)',
